@@ -24,7 +24,7 @@ Proof.
 Qed.
 
 Section PerOffset.
-Variables (fx : bool) (s : str) (off : nat).
+Variables (fx : fixes) (s : str) (off : nat).
 Hypothesis Hb : boundary s off.
 
 Lemma top_line_col : line_col s off = Ok (spec_line_col (before s off)).
